@@ -99,6 +99,15 @@ def nontrivial_doc(doc, node, schemas) -> bool:
     return False
 
 
+def _edge_variants(doc):
+    """Container-of-containers documents with an EMPTY first inner container followed by a non-empty one (still conforming)."""
+    if isinstance(doc, list) and any(isinstance(x, list) and x for x in doc) and not (doc and doc[0] == []):
+        return [[[]] + doc]
+    if isinstance(doc, dict) and doc and all(isinstance(x, list) for x in doc.values()) and any(doc.values()):
+        return [{"aa_empty_first": [], **doc}]
+    return []
+
+
 def roundtrip_violations(res: genrun.GenResult, spec: dict, docs: dict) -> tuple[list[Violation], int, int, list[str]]:
     """Returns (violations, evaluations, nontrivial count, labels)."""
     schemas = (spec.get("components") or {}).get("schemas") or {}
@@ -182,7 +191,13 @@ def case_strategy(gate: specgen.Gate, docs_per_schema: int = 8):
             if not I.satisfiable({"$ref": "#/components/schemas/" + name}, schemas):
                 continue
             docs[name] = draw(st.lists(I.instances(node, schemas).filter(lambda d, node=node: d is not None and I.conforms(d, node, schemas)), min_size=1, max_size=docs_per_schema))
-        return {"spec": spec, "cfg": cfg, "docs": docs}
+            rn = I.resolve(node, schemas)
+            if rn.get("type") == "array" or ("additionalProperties" in rn and not rn.get("properties")):
+                docs[name] = [v for d in docs[name] for v in _edge_variants(d)] + docs[name]
+        # models whose root is a container are decoded/encoded FIRST, i.e. before any hook for their element types exists in the
+        # package's converter (the per-case package is fresh): laws must not depend on what was converted earlier
+        order = sorted(docs, key=lambda n: 0 if I.resolve(schemas[n], schemas).get("type") == "array" or "additionalProperties" in I.resolve(schemas[n], schemas) else 1)
+        return {"spec": spec, "cfg": cfg, "docs": {n: docs[n] for n in order}}
 
     return cases()
 
